@@ -23,6 +23,16 @@ PLAN = {
         "quick": [ph("input", 8, 400)],
         "thorough": [ph("input", 16, 20000)],
     },
+    "C20": {
+        "level": "exploration",
+        "level_text": "Reference-model monitor: constructor results are compared with the stated recurrence/closed form and error conditions over generated arguments; histograms created from adversarially colliding bucket sets (permutations, equal bit-pattern sums, value/duration twins) under one root, sequentially and from concurrent goroutines, must each deliver exactly the tiling of their own spec",
+        "level_note": "trusts the reference recurrence and bucketing model; collisions are constructed for the additive bucket-cache identity, 64-bit hash collisions beyond that are not searched",
+        "technique": "runtime reference-model monitor over generated arguments and adversarial creation histories (also under the race detector)",
+        "rule": "one case = 6 constructor calls (all four constructors and their Must variants; n in -5..40, zero/negative starts, factors around 1) + one caller-slice no-mutation probe + one colliding family of 2..7 histograms under one root (plain or cached, one third created concurrently); distinct_nontrivial = distinct accepted constructor argument tuples plus distinct (family, creation order) hashes",
+        "assumptions": ["reference model mon/ref.go", "float recurrence accepted in either evaluation order (prev*factor or start*factor^i)"],
+        "quick": [ph("input", 8, 400), ph("race", 2, 150, race=True)],
+        "thorough": [ph("input", 16, 40000), ph("race", 8, 3000, race=True)],
+    },
 }
 
 NOT_APPLICABLE = {}
